@@ -21,6 +21,19 @@ M = {
   ('opt restore only if cps (equivalent)', 'sourcer/expressions/opt.py', "            out += POS << backtrack\n", "            if self.expr.can_partially_succeed():\n                out += POS << backtrack\n"),
   ('regex cps True (equivalent)', 'sourcer/expressions/regex.py', "    def can_partially_succeed(self):\n        return False", "    def can_partially_succeed(self):\n        return True"),
  ],
+ 'C02': [
+  ('pop cond assoc!=2', 'sourcer/expressions/operator_table.py', "_top_prec == _prec and _top_assoc == 1)", "_top_prec == _prec and _top_assoc != 2)"),
+  ('longest->choice in combine', 'sourcer/expressions/operator_table.py', "                return Longest(*exprs)", "                return Choice(*exprs)"),
+  ('conflict compares assoc only', 'sourcer/expressions/operator_table.py', "with out.ELIF(Code(f'_top_prec == _prec and _top_assoc == 3')):", "with out.ELIF(Code(f'_top_assoc == 3')):"),
+  ('marker not refreshed after postfix', 'sourcer/expressions/operator_table.py', "            out += operator_marker << Code(f'len({operator_stack})')\n            out += outer_checkpoint << POS\n", "            out += outer_checkpoint << POS\n"),
+  ('marker after infix removed', 'sourcer/expressions/operator_table.py', "            out += operator_marker << Code(f'len({operator_stack})')\n            out += operator_stack.append(RESULT)", "            out += operator_stack.append(RESULT)"),
+  ('revert F05', 'sourcer/expressions/operator_table.py', "            with out.IF(Code('_prec is None')):\n                out += BREAK\n", ""),
+  ('revert F06 restore', 'sourcer/expressions/operator_table.py', "                with out.IF(operand_stack):\n                    out += (POS << outer_checkpoint)\n                out += BREAK\n\n            # OK, we have an operand.", "                out += BREAK\n\n            # OK, we have an operand."),
+  ('revert F06 flag', 'sourcer/expressions/operator_table.py', "            self.prefixes is not None or self.operands.can_partially_succeed()", "            self.operands.can_partially_succeed()"),
+  ('postfix pop <= (equivalent)', 'sourcer/expressions/operator_table.py', "{ops}[-1][0] < {RESULT[0]}", "{ops}[-1][0] <= {RESULT[0]}"),
+  ('right assoc pops equal', 'sourcer/expressions/operator_table.py', "_top_prec == _prec and _top_assoc == 1)", "_top_prec == _prec and _top_assoc in (1, 2))"),
+  ('prefix popped by looser infix only', 'sourcer/expressions/operator_table.py', "Code(f'_top_prec < _prec or (", "Code(f'(_top_prec < _prec and _top_assoc != 0) or ("),
+ ],
  'C03': [
   ('sep drop pop', 'sourcer/expressions/sep.py', "                    with out.IF(staging):\n                        out += staging.pop()\n", "                    pass\n"),
   ('sep require_separator empty', 'sourcer/expressions/sep.py', "Code(f'not {staging} or {saw_separator}')", "Code(f'{saw_separator}')"),
